@@ -92,6 +92,29 @@ func H_l2_nowrite() {
 					vAssert(kb == nil, "C11.iter.same-as-solo")
 				}
 			}
+			// both iterators are exhausted (and were polled again after exhaustion); iterators
+			// created now must not be affected by them or by each other: a key handed out by
+			// one stays intact while the other advances
+			a2 := st.NewIter(q, true, true)
+			b2 := st.NewIter(q2, true, true)
+			for i := 0; i < c.n+1; i++ {
+				ka, _ := a2()
+				var kaCopy string
+				if ka != nil {
+					kaCopy = string(ka)
+				}
+				kb, _ := b2()
+				if i < len(k1) {
+					vAssert(ka != nil && vStrEq(kaCopy, k1[i]) && vStrEq(string(ka), k1[i]), "C11.iter.second-round")
+				} else {
+					vAssert(ka == nil, "C11.iter.second-round")
+				}
+				if i < len(k2) {
+					vAssert(kb != nil && vStrEq(string(kb), k2[i]), "C11.iter.second-round")
+				} else {
+					vAssert(kb == nil, "C11.iter.second-round")
+				}
+			}
 		}
 	}
 	vAssert(vWrites() == 0, "C11.no-shared-write")
@@ -190,6 +213,20 @@ func H_l2_alias() {
 		vAssert(f0 == f1 && c.sameIface(v0, v1), "C20.out-overwrite-harmless")
 		out2, _ := c.st.Marshal()
 		vAssert(vNativeTrue(bytes.Equal(out2, out0)), "C20.marshal-again-same-bytes(native)")
+		// two results alive at once: a later Marshal (of this or another, larger trie) leaves
+		// earlier output intact; the larger trie is marshalled once before, so that any
+		// recycled buffer already has room for everything that follows
+		other, _ := NewSlimTrie(c.encoder(), vSkeleton(0), nil, Opt{Complete: Bool(true)})
+		other.Marshal()
+		outA, _ := c.st.Marshal()
+		outAcopy := append([]byte{}, outA...)
+		outB, _ := other.Marshal()
+		outBcopy := append([]byte{}, outB...)
+		vAssert(vBytesEq(outA, outAcopy), "C20.earlier-output-intact")
+		outC, _ := c.st.Marshal()
+		vAssert(vBytesEq(outB, outBcopy) && vBytesEq(outA, outAcopy), "C20.earlier-output-intact")
+		vAssert(len(outC) == len(outA), "C20.marshal-lengths")
+		vAssert(!vReachable(outA, outB) && !vReachable(outB, outC) && !vReachable(outA, outC), "C20.outputs-disjoint")
 		st2 := c.reload(c.st)
 		v2, f2 := st2.Get(q)
 		vAssert(f0 == f2 && c.sameIface(v0, v2), "C20.marshal-again-same-answers")
